@@ -456,7 +456,7 @@ PERIOD_OF = {'15min': [('h', None), ('2h', '4h')], '30min': [('2h', None), ('4h'
              '2h': [('d', None), ('8h', 'd')], '4h': [('d', None), ('d', '2d')]}
 
 ALL_KINDS = ('contract', 'transport', 'storage', 'multi', 'orderbook', 'plant', 'chp', 'scaled', 'structured', 'coarse', 'periodic',
-             'storage_mip', 'storage_blocks')
+             'storage_mip', 'storage_blocks', 'linked', 'chp_minload')
 
 
 def gen_mixed_portfolio(rng, kinds=ALL_KINDS, g=None, n_assets=(2, 6), n_nodes=(1, 3), grid_kw=None, window=True, mip_ok=True, campaign=True, data_caps=False):
@@ -472,7 +472,7 @@ def gen_mixed_portfolio(rng, kinds=ALL_KINDS, g=None, n_assets=(2, 6), n_nodes=(
     for i, n in enumerate(nodes):
         assets.append(gen_market(rng, 'mkt%d' % i, n, f, 'p%d' % i)); pk.append('p%d' % i)
     k = int(rng.integers(n_assets[0], n_assets[1] + 1))
-    kinds = [x for x in kinds if mip_ok or x not in ('plant', 'chp', 'storage_mip')]
+    kinds = [x for x in kinds if mip_ok or x not in ('plant', 'chp', 'storage_mip', 'linked', 'chp_minload')]
     for j in range(k):
         ty = pick(rng, kinds)
         key = 'q%d' % j; pk.append(key)
@@ -536,6 +536,22 @@ def gen_mixed_portfolio(rng, kinds=ALL_KINDS, g=None, n_assets=(2, 6), n_nodes=(
                 inner.append(gen_contract(rng, g, 'st_c%d' % j, inner_nodes[1], f, key, window=False, take=False))
             inner.append({'type': 'SimpleContract', 'name': 'st_m%d' % j, 'nodes': [inner_nodes[0]], 'price': key, 'min_cap': -2. * f, 'max_cap': 2. * f, 'extra_costs': 0.2, 'wacc': 0.})
             assets.append({'type': 'StructuredAsset', 'name': 'struct%d' % j, 'nodes': [ext], 'assets': inner})
+        elif ty == 'linked':
+            # LinkedAsset: asset 2 of the wrapped pair may only dispatch while asset 1 is on (time_back / time_forward in main time units)
+            heat = 'lkheat%d' % j
+            nd = pick(rng, nodes)
+            st_ = float(pd.Timedelta(to_offset(g['freq'])) / pd.Timedelta(1, g['unit']))
+            a1 = {'type': 'CHPAsset', 'name': 'lk%d_a1' % j, 'nodes': [nd, heat], 'price': key, 'min_cap': r2(2. * f), 'max_cap': r2(5. * f), 'extra_costs': 1., 'wacc': 0.}
+            a2 = {'type': 'CHPAsset', 'name': 'lk%d_a2' % j, 'nodes': [nd, heat], 'price': key, 'min_cap': r2(1. * f), 'max_cap': r2(8. * f), 'extra_costs': 0.5, 'wacc': 0.}
+            assets.append({'type': 'SimpleContract', 'name': 'mkt_' + heat, 'nodes': [heat], 'price': key, 'min_cap': -30. * f, 'max_cap': 30. * f, 'extra_costs': 0.3, 'wacc': 0.})
+            assets.append({'type': 'LinkedAsset', 'name': 'linked%d' % j, 'nodes': [nd, heat], 'assets': [a1, a2], 'asset1_variable': [a2['name'], 'disp', nd],
+                           'asset2_variable': [a1['name'], 'bool_on', None], 'time_back': r2(st_ * pick(rng, [0, 0, 1])), 'time_forward': r2(st_ * pick(rng, [0, 0, 1]))})
+        elif ty == 'chp_minload':
+            heat = 'mlheat%d' % j
+            nd = pick(rng, nodes)
+            assets.append({'type': 'SimpleContract', 'name': 'mkt_' + heat, 'nodes': [heat], 'price': key, 'min_cap': -30. * f, 'max_cap': 30. * f, 'extra_costs': 0.3, 'wacc': 0.})
+            assets.append({'type': 'CHPAsset_with_min_load_costs', 'name': 'ml%d' % j, 'nodes': [nd, heat], 'price': 'p0', 'min_cap': r2(1. * f), 'max_cap': r2(6. * f), 'extra_costs': 0.5, 'wacc': 0.,
+                           'min_load_threshhold': r2(3. * f), 'min_load_costs': r2(pick(rng, [0.5, 2.]) * f), 'start_costs': pick(rng, [0., 2.])})
         elif ty == 'coarse' and g['freq'] in COARSE_OF:
             cf = pick(rng, COARSE_OF[g['freq']])
             base = pick(rng, ['contract', 'contract', 'storage', 'transport'])
@@ -616,4 +632,4 @@ def asset_types(spec):
 
 def is_mip(spec):
     ts = ' '.join(asset_types(spec))
-    return any(k in ts for k in ('Plant', 'CHPAsset', '+nosimult', '+maxdur', '+fullexec'))
+    return any(k in ts for k in ('Plant', 'CHPAsset', 'LinkedAsset', '+nosimult', '+maxdur', '+fullexec'))
